@@ -174,19 +174,24 @@ _docactions.DocActions.ReplaceTableData = _observed_replace
 gen.SEEDS["c12_lists"] = [
   [["AddTable", "P", [_col("name", "Text")]],
    ["AddTable", "A", [_col("cat", "Text"), _col("n", "Int"), _col("tags", "ChoiceList"),
-                      _col("ps", "RefList:P"), _col("p", "Ref:P"), _col("ch", "Choice")]]],
+                      _col("ps", "RefList:P"), _col("p", "Ref:P"), _col("ch", "Choice"),
+                      _col("als", "ChoiceList")]]],
   [["BulkAddRecord", "P", [None] * 3, {"name": ["x", "y", "z"]}],
    ["BulkAddRecord", "A", [None] * 6,
     {"cat": ["x", "y", "x", "", "y", "x"], "n": [1, 2, 1, 4, 2, 0],
      "tags": [["L", "a"], ["L", "a", "b"], None, ["L"], ["L", "b", "b"], "a"],
      "ps": [["L", 1, 2], None, ["L", 3], ["L", 2, 2], ["L"], ["L", 1]],
-     "p": [1, 2, 0, 1, 3, 1], "ch": ["u", "v", "u", "", "u", "v"]}]],
-  # column refs: P.manualSort 1, P.name 2, A.manualSort 3, cat 4, n 5, tags 6, ps 7, p 8, ch 9
+     "p": [1, 2, 0, 1, 3, 1], "ch": ["u", "v", "u", "", "u", "v"],
+     "als": [["L", "k"], None, ["L"], ["L", "k", "m"], None, ["L", "m"]]}]],
+  # column refs: P.manualSort 1, P.name 2, A.manualSort 3, cat 4, n 5, tags 6, ps 7, p 8, ch 9,
+  # als 10 (a ChoiceList whose id sorts BEFORE the RefList column's: both orders of the two kinds
+  # of list column occur among the group-by tuples)
   [["CreateViewSection", 2, 0, "record", [6], None]],              # by tags
   [["CreateViewSection", 2, 0, "record", [7], None]],              # by ps (RefList)
   [["CreateViewSection", 2, 0, "record", [4, 6], None]],           # by cat, tags
   [["CreateViewSection", 2, 0, "record", [8, 5], None]],           # by p, n
   [["CreateViewSection", 2, 0, "record", [6, 7], None]],           # by tags, ps
+  [["CreateViewSection", 2, 0, "record", [10, 7], None]],          # by als, ps
 ]
 
 A_VALUES = {
@@ -196,6 +201,7 @@ A_VALUES = {
   "ps": [None, ["L"], ["L", 1], ["L", 2, 1], ["L", 3, 3], ["L", 1, 2, 3]],
   "p": [0, 1, 2, 3, "q"],
   "ch": ["u", "v", "", "w"],
+  "als": [None, ["L"], ["L", "k"], ["L", "k", "m"], ["L", "m", "m"], "k"],
 }
 
 
